@@ -8,6 +8,7 @@ CONSTANTS
   Tasks = {"uniq", "fptr"}
   DbInputs <- MCDbInputs
   StageInputs <- MCStageInputs
+  FirstInputs <- MCFirstInputs
 INVARIANT NoAbort
 INVARIANT StepBound
 INVARIANT UniqExact
